@@ -25,6 +25,13 @@ for d in sorted(os.listdir(base)):
             if all(os.path.exists(os.path.join(path,f)) for f in ('patch.diff','demo_test.go','notes.md')):
                 jobs.append((d,x,path))
 jobs=[j for j in jobs if not flt or j[0] in flt]
+def superseded(path):
+    try: return 'superseded_by_fix' in json.load(open(os.path.join(path,'meta.json')))
+    except Exception: return False
+if stored:
+    for j in jobs:
+        if superseded(j[2]): print('=====',j[0],j[1],'\nSUPERSEDED by a later fix: skipped')
+    jobs=[j for j in jobs if not superseded(j[2])]
 def run(job):
     pid,x,path=job
     ids=[pid]+EXTRA.get(pid,[])
